@@ -416,6 +416,35 @@ func registerIntrinsics(m *Machine) {
 		m.AssumeUnder(c.And(it.G, m.slt(hi, y)), c.And(c.Eq(n, m.add(c.Bin(sym.OpMul, q, y), r)), m.sle(m.IntC(0), r), m.slt(r, y), m.sle(m.IntC(0), q)), "math/bits.Div64: n = q*y + r, 0 <= r < y")
 		return Tuple{q, r}
 	})
+	// bits.Len64 / bits.Len (int mode: the operand is a mathematical integer in [0, 2^64)): an ite chain over the
+	// 64 powers of two
+	lenOf := func(m *Machine, x T, bitsN int) T {
+		res := m.IntC(0)
+		for k := 1; k <= bitsN; k++ {
+			pow := c.IntBig(new(big.Int).Lsh(big.NewInt(1), uint(k-1)))
+			res = c.Ite(m.sle(pow, x), m.IntC(int64(k)), res)
+		}
+		return res
+	}
+	for _, nm := range []string{"Len64", "Len", "Len32"} {
+		n := 64
+		if nm == "Len32" {
+			n = 32
+		}
+		nn := n
+		I["math/bits."+nm] = inline(func(m *Machine, it *Item, a []Value) Value {
+			if !m.IntMode {
+				m.fail("math/bits.Len* is only modelled in int mode")
+			}
+			return lenOf(m, a[0].(T), nn)
+		})
+	}
+	I["math/bits.LeadingZeros64"] = inline(func(m *Machine, it *Item, a []Value) Value {
+		if !m.IntMode {
+			m.fail("math/bits.LeadingZeros64 is only modelled in int mode")
+		}
+		return m.sub(m.IntC(64), lenOf(m, a[0].(T), 64))
+	})
 	// ---- terminal
 	cw := "github.com/vbauerster/mpb/v8/cwriter."
 	I[cw+"IsTerminal"] = inline(func(m *Machine, it *Item, a []Value) Value { return c.False })
